@@ -61,6 +61,15 @@ def has_interrupt(b):
     return False
 
 
+def has_loop(b):
+    for s in b:
+        if s[0] in ("while", "for"):
+            return True
+        if s[0] == "if" and (has_loop(s[1]) or (s[2] and has_loop(s[2]))):
+            return True
+    return False
+
+
 def rand_block(rng, depth, in_loop, in_func, budget, p_else=0.55):
     n = rng.choice([1, 1, 2, 2, 3])
     out = []
@@ -170,14 +179,23 @@ class _Ren:
                 self.lines.append(p + "else:")
                 self.block(s[2], ind + 1)
         elif s[0] == "while":
-            self.lines.append("%swhile w(%d):" % (p, k))
+            if self.walrus:
+                # the test binds a name (assignment expression in the loop header); the body observes it
+                self.lines.append("%swhile (t%d := w(%d)):" % (p, k, k))
+                self.lines.append("%s    m(('t', %d, t%d))" % (p, k, k))
+            else:
+                self.lines.append("%swhile w(%d):" % (p, k))
             saved = self.loopvars
             self.block(s[1], ind + 1)
             if s[2]:
                 self.lines.append(p + "else:")
                 self.block(s[2], ind + 1)
         elif s[0] == "for":
-            self.lines.append("%sfor v%d in it(%d):" % (p, k, k))
+            if self.walrus:
+                self.lines.append("%sfor v%d in (s%d := it(%d)):" % (p, k, k, k))
+                self.lines.append("%s    m(('s', %d, s%d.k))" % (p, k, k))
+            else:
+                self.lines.append("%sfor v%d in it(%d):" % (p, k, k))
             self.loopvars.append("v%d" % k)
             self.block(s[1], ind + 1)
             self.loopvars.pop()
@@ -186,8 +204,9 @@ class _Ren:
                 self.block(s[2], ind + 1)
 
 
-def render(b, place, trace_interrupts=False):
+def render(b, place, trace_interrupts=False, walrus=False):
     r = _Ren(trace_interrupts)
+    r.walrus = walrus
     if place == "module":
         r.block(b, 0)
         r.lines.append("m(0)")
